@@ -40,8 +40,14 @@ def main():
         sd = os.path.join(wt, '_seed', k)
         if not os.path.exists(os.path.join(sd, 'patch.diff')):
             continue
-        name = '%s-%s' % (prop, k)
-        meta = {'property': prop, 'origin': 'independent sub-agent, given only the property text and a private worktree', 'checks': checks}
+        if sys.argv[2] == 'auto':
+            # fourth wave: the agent saw all property statements and an assigned code area, and names the property it broke
+            prop = open(os.path.join(sd, 'prop.txt')).read().strip().split()[0]
+            checks = [prop] + sys.argv[3:]
+            name = '%s-%s' % (prop, k)
+        else:
+            name = '%s-%s' % (prop, k)
+        meta = {'property': prop, 'origin': 'independent sub-agent, given only the property text%s and a private worktree' % ('s (all 19) and a code area' if sys.argv[2] == 'auto' else ''), 'checks': checks}
         meta['needs'] = open(os.path.join(sd, 'notes.txt')).read().strip() if os.path.exists(os.path.join(sd, 'notes.txt')) else ''
         orig = scratch_full()
         mut = scratch_full()
